@@ -589,6 +589,11 @@ def idclone_specs(max_n, *, ids=("id7",), typed=False):
             yield gen.Spec(tuple((p, lab, (the_id if lab == "a" else None), k) for p, lab, _d, k in sp.nodes), typed=sp.typed)
 
 
+def typed_of(sp: gen.Spec, kind="k1") -> gen.Spec:
+    """The typed variant of an untyped spec (every node gets `kind`)."""
+    return gen.Spec(tuple((p, lab, d, kind) for p, lab, d, _k in sp.nodes), typed=True)
+
+
 def case_list(tier: str):
     """[(family, spec)] -- every tree of the bound."""
     N = 4 if tier == "quick" else 5
@@ -600,6 +605,8 @@ def case_list(tier: str):
     out += [("strcb", s) for s in idspecs]
     out += [("typed", s) for s in gen.typed_specs(N)]
     tid = list(idclone_specs(N - 1, typed=True))
+    # typed trees in which a node with an explicit id coexists with equal data under another id
+    tid += [typed_of(s) for s in gen.explicit_id_specs(N - 1)] + [typed_of(s) for s in gen.eqpair_specs(N - 1)]
     out += [("typed", s) for s in tid]
     out += [("typedcb", s) for s in tid]
     out += [("rec", s) for s in gen.plain_specs(N - 1)]
@@ -707,9 +714,9 @@ def run(prop: str, tier: str, only=None) -> Result:
         for f, s in cases:
             by.setdefault(f, []).append(s)
         for f, specs in by.items():
-            small = [s for s in specs if len(s) <= 3]
-            big = [s for s in specs if len(s) > 3]
-            pick = small + rng.sample(big, min(len(big), 120))
+            small = [s for s in specs if len(s) <= 2]
+            big = [s for s in specs if len(s) > 2]
+            pick = small + rng.sample(big, min(len(big), 60))
             items += [(f, s, "full") for s in pick]
             n_full += len(pick)
     res = parallel(_chunk, items, prop, prop=prop, chunks_per_proc=8)
@@ -719,11 +726,11 @@ def run(prop: str, tier: str, only=None) -> Result:
     res.bounds["Tree/TypedTree/FileSystemTree save -> load (document level)"] = (
         f"{len(cases)} trees: all plain string trees <= {N} nodes over {{a,b,c}} (clones at every position), unicode labels <= {N - 1}, "
         f"equal data under ids 1/2 <= {N}, one explicit id <= {N}, explicit-id clone groups (ids 'id7', 0) <= {N}, typed trees <= {N} x kinds {{k1,k2}}, "
-        f"typed with explicit ids <= {N - 1}; object trees <= {N - 1} nodes: frozen dataclass + callback mappers (Tree, TypedTree), DictWrapper class mappers, "
+        f"typed with explicit ids (clone groups; one explicit id; equal data under ids 1/2) <= {N - 1}; object trees <= {N - 1} nodes: frozen dataclass + callback mappers (Tree, TypedTree), DictWrapper class mappers, "
         f"derived classes with own mappers (Tree; TypedTree + calc_data_id), FileSystemTree; each under a pairwise-covering set of "
         f"{min(npair.values())}-{max(npair.values())} option tuples over key_map{{default,off,custom}} x value_map{{default,off,custom[,custom w/o kind]}} x "
         f"compression{{False,True,STORED,DEFLATED,BZIP2,LZMA}} x target{{str path,Path,open text file,StringIO}} x meta{{None,dict}}"
-        + (f"; plus the full 3x(3|4)x6x4 matrix on {n_full} trees (all <= 3 nodes + 120 random larger ones per family, VERIF_SEED={seed()})" if n_full else "")
+        + (f"; plus the full 3x(3|4)x6x4 matrix on {n_full} trees (all <= 2 nodes + 60 random larger ones per family, VERIF_SEED={seed()})" if n_full else "")
     )
     res.exhaustive = False  # option tuples are a covering subset (quick) / trees of the full matrix are sampled (thorough)
     return res
